@@ -4,7 +4,7 @@ SPEC = dict(
     harness=['h_filter.c'],
     # the default (double) build runs the full harness; the other two real widths run a compact type-generic companion
     configs=lambda tier: [dict(name='f64'), dict(name='f32', real=4, harness=['h_filter_w.c']), dict(name='f80', real=16, harness=['h_filter_w.c']),
-                          dict(name='cxx', harness=['h_cxxw.c', 'h_cxxw_shim.cc'], hflags=['-DVF_CXXW=16'])],
+                          dict(name='cxx', harness=['h_cxxw.c', 'h_cxxw_shim.cc'], hflags=['-DVF_CXXW=16'], nworkers=4)],
     parallel_configs=4,
     level='exploration',
     rule='a_tf: every (num_n, den_n) pair in 0..8 x 0..8 is run in every repetition with every input class (impulse, step, alternating, '
